@@ -165,7 +165,7 @@ def unregister(prog):
 
 PAYLOADS = [("Boom('boom')", lambda B: B("boom")), ("Boom()", lambda B: B()), ("KeyError(7)", lambda B: KeyError(7))]
 
-_ID_RE = re.compile(r"\ba[0-9a-f]{5}\b")
+_ID_RE = re.compile(r"\b" + boot.ID_PATTERN + r"\b")
 
 
 def norm(html):
